@@ -172,7 +172,7 @@ CORPUS = [
 
 
 def generate(rng, tier):
-    n = 1200 if tier == "quick" else 24000
+    n = 1200 if tier == "quick" else 48000
     cases = list(CORPUS)
     for i in range(n):
         cases.append(_gen_case(rng, i, malformed=(i % 6 == 5)))
@@ -304,6 +304,9 @@ def _walk(case, obs):
             continue
         if t < prev or (t == prev and t != times[0]):
             return fails, st            # p0 >= p1 (not the initial pull): outside the domain from here on
+        if r[0] == "ok" and not all(np.isfinite(v) for v in r[1]):
+            fails.append(f"pull at {t} delivered a non-finite value {r[1]}")
+            return fails, st
         if r[0] != "ok" or len(r[1]) != n:
             fails.append(f"pull at {t} (previous pull {prev}, range [{times[0]},{times[-1]}]) returned {r}")
             prev = t
